@@ -32,7 +32,9 @@ def validate(doc):
 
 def write(pid, doc):
     ok, err = validate(json.loads(json.dumps(doc, default=repr)))
-    path = os.path.join(HOME, "evidence", "%s.json" % pid)
+    edir = os.environ.get("VERIF_EVIDENCE_DIR") or os.path.join(HOME, "evidence")
+    os.makedirs(edir, exist_ok=True)
+    path = os.path.join(edir, "%s.json" % pid)
     if ok:
         with open(path + ".tmp", "w") as f:
             json.dump(doc, f, indent=1, sort_keys=True, default=repr)
